@@ -47,7 +47,10 @@ def name_parts(name):
     if not isinstance(name, I.SymStr):
         return [str(name)] if isinstance(name, str) else None
     out = []
-    for p in name.parts:
+    flat = []
+    for p in name.parts:                      # an f-string field may itself be the value of an f-string
+        flat += (name_parts(p) or ["?"]) if isinstance(p, I.SymStr) else [p]
+    for p in flat:
         if isinstance(p, (str, int)) and not isinstance(p, bool):
             if out and isinstance(out[-1], str):
                 out[-1] += str(p)
